@@ -96,7 +96,10 @@ func c12Real(seq []c12sym) (idx int, msg string) {
 			kind = fsutil.ChangeKindModify
 		}
 		dirInfo := &fsutil.StatInfo{Stat: &types.Stat{Path: s.p, Mode: uint32(os.ModeDir | 0755)}}
-		fileInfo := &fsutil.StatInfo{Stat: &types.Stat{Path: s.p, Mode: 0644}}
+		// a non-directory is any of the types a walk reports (Go spells a
+		// character device with two type bits)
+		fmode := []os.FileMode{0644, 0644, os.ModeSymlink | 0777, os.ModeNamedPipe | 0600, os.ModeSocket | 0600, os.ModeDevice | os.ModeCharDevice | 0666, os.ModeDevice | 0660, os.ModeSetuid | 0755}[(salt>>(uint(i%16)*4+1))&7]
+		fileInfo := &fsutil.StatInfo{Stat: &types.Stat{Path: s.p, Mode: uint32(fmode)}}
 		switch s.k {
 		case kDir:
 			err = v.HandleChange(kind, s.p, dirInfo, nil)
@@ -323,7 +326,7 @@ func init() {
 	core.Register(&core.Prop{
 		ID:    "C12",
 		Level: "exploration",
-		Rule: "case 0 checks the order axioms on all pairs/triples of a path alphabet; cases 1..N enumerate EVERY sequence with a fixed pair of leading symbols up to the length bound over a 32-path x {dir,file,delete} alphabet (a third of the dir/file records are handed over as modify instead of add records, delete records carry no file info, a directory's or a file's; the choice is a function of the sequence; prefixes rejected by both sides are pruned, as the receiver stops there); remaining cases are random sequences up to length 60, deep chains, and valid listings of random trees over the names {a,b,x} (depth <= 4, the same directory names recurring in different branches) with one structural mutation (a path moved to another branch, an element dropped, duplicated, swapped, or turned from directory into file). " +
+		Rule: "case 0 checks the order axioms on all pairs/triples of a path alphabet; cases 1..N enumerate EVERY sequence with a fixed pair of leading symbols up to the length bound over a 32-path x {dir,file,delete} alphabet (a third of the dir/file records are handed over as modify instead of add records, delete records carry no file info, a directory's or a file's, file records any non-directory type incl. devices; the choice is a function of the sequence; prefixes rejected by both sides are pruned, as the receiver stops there); remaining cases are random sequences up to length 60, deep chains, and valid listings of random trees over the names {a,b,x} (depth <= 4, the same directory names recurring in different branches) with one structural mutation (a path moved to another branch, an element dropped, duplicated, swapped, or turned from directory into file). " +
 			"Each sequence is fed to a fresh real Validator and to the specification; non-trivial = enumeration chunk or random batch containing at least one sequence the specification accepts beyond length 1; distinct by leading symbols / PRNG value",
 		Assumptions: []string{"os.FileInfo passed to the validator is fsutil.StatInfo, as the receiver does", "unix path separator"},
 		Cases: func(tier string) int {
